@@ -252,7 +252,7 @@ def c06_units(tier, seed):
 
 def c07_units(tier, seed):
     us = [dict(id="C07a", harness="calendar.VH_C07_NewSolar", params={"B": 1 << 31})]
-    ys = year_set(tier, seed, budget_quick=16) if tier == "quick" else year_set(tier, seed)
+    ys = year_set(tier, seed, budget_quick=16) if tier == "quick" else year_set(tier, seed)[::3]
     for Y in ys:
         for mo in range(-13, 14):
             us.append(dict(id=f"C07b[Y={Y},mo={mo}]", harness="calendar.VH_C07_NewLunar", params={"Y": Y, "MO": mo}))
@@ -301,7 +301,7 @@ PROPS["C15"] = dict(units=c15_units, bounds_text="all dates y in 1..9998 (year s
 
 def c12_units(tier, seed):
     q = tier == "quick"
-    ys = year_set(tier, seed, budget_quick=10) if q else year_set(tier, seed)[::3]
+    ys = year_set(tier, seed, budget_quick=10) if q else year_set(tier, seed)[::6]
     ys = [y for y in ys if y <= 9800]
     us = []
     for sect in (1, 2):
@@ -334,7 +334,7 @@ PROPS["C16"] = dict(units=c16_units, bounds_text="every second of each listed ci
 def c08_units(tier, seed):
     q = tier == "quick"
     us = [dict(id=f"C08a[sect={s},base={b}]", harness="calendar.VH_C08_Field", params={"Y": b, "SECT": s}) for s in (1, 2) for b in ((2020,) if q else (2020, 1990, 15))]
-    ys = year_set(tier, seed, budget_quick=6) if q else year_set(tier, seed)[::4]
+    ys = year_set(tier, seed, budget_quick=6) if q else year_set(tier, seed)[::8]
     for Y in ys:
         for m in range(1, 13):
             us.append(dict(id=f"C08b[Y={Y},m={m}]", harness="calendar.VH_C08_Year", params={"Y": Y, "SECT": 1 + (Y + m) % 2, "GENDER": (Y // 2 + m) % 2}, concrete={"v_m": m}))
@@ -428,7 +428,7 @@ PROPS["C09"] = dict(units=c09_units, bounds_text="histories: every sequence of 3
 def c10_units(tier, seed):
     q = tier == "quick"
     us = []
-    years = [2024] if q else [1990, 2017, 2020, 2021, 2024]
+    years = [2024] if q else [2020, 2024]
     for Y in years:
         for m in range(1, 13):
             for sect in (1, 2):
@@ -437,12 +437,12 @@ def c10_units(tier, seed):
                 for base in ((Y - 3,) if q else (Y - 3, 1900)):
                     us.append(dict(id=f"C10a[Y={Y},m={m},sect={sect},base={base},win=1]", harness="calendar.VH_C10_Reverse",
                                    params={"Y": Y, "SECT": sect, "BASE": base, "WIN": 1}, concrete={"v_m": m}))
-            if not q and Y in (2020, 2024):
+            if not q and Y == 2024 and m in (2, 6, 12):
                 us.append(dict(id=f"C10a[Y={Y},m={m},sect=1,base={Y-3},win=0]", harness="calendar.VH_C10_Reverse",
                                params={"Y": Y, "SECT": 1, "BASE": Y - 3, "WIN": 0}, concrete={"v_m": m}))
     return us
 
 
-PROPS["C10"] = dict(units=c10_units, bounds_text="every second of the three days around the Jie of each month of the listed years (quick: 2024; thorough: 1990, 2017, 2020, 2021, 2024), base year = year-3 (thorough also the default 1900); quick: early-rat convention for all 12 months and the late-rat convention for February; thorough: both conventions for every month; thorough adds the remaining days of the month for 2020/2024 under sect 1; candidate-year loop unwound concretely (the clock's current year is read from the host)",
+PROPS["C10"] = dict(units=c10_units, bounds_text="every second of the three days around the Jie of each month of the listed years (quick: 2024; thorough: 2020, 2024), base year = year-3 (thorough also the default 1900); quick: early-rat convention for all 12 months and the late-rat convention for February; thorough: both conventions for every month; thorough adds the remaining days of February, June and December 2024 under sect 1; candidate-year loop unwound concretely (the clock's current year is read from the host)",
                     outside="years not listed; the days away from the Jie in quick; time.Now() beyond the host clock's year",
                     unit_timeout_ms={"quick": 1500000, "thorough": 3600000})
